@@ -239,7 +239,10 @@ func specMutations() []specMutation {
 		}
 	})
 	bot("ideal banked dram", "port_capacity", func(b *memsys.BottomSpec) { b.PortBuf++ })
-	add("bottom.count(entity set)", func(s *memsys.AssemblySpec) bool { s.Bottom.N++; return len(s.Levels) == 0 || s.Levels[len(s.Levels)-1].Kind != "rob" })
+	add("bottom.count(entity set)", func(s *memsys.AssemblySpec) bool {
+		s.Bottom.N++
+		return len(s.Levels) == 0 || s.Levels[len(s.Levels)-1].Kind != "rob"
+	})
 	add("driver.freq", func(s *memsys.AssemblySpec) bool { s.Drivers[0].Freq += 1_000_000; return true })
 	add("driver.max_out", func(s *memsys.AssemblySpec) bool { s.Drivers[0].MaxOut++; return true })
 	add("driver.script", func(s *memsys.AssemblySpec) bool {
